@@ -47,6 +47,10 @@ import (
 
 const watchdog = 25 * time.Second
 
+// grace: after the watchdog expired and the goroutine dump was taken, the executions get this much longer; a hang is
+// declared only if they are still blocked then (second dump)
+const grace = 6 * time.Second
+
 // ---------- history ----------
 
 type hev struct {
@@ -116,6 +120,7 @@ type world struct {
 	cut      map[int]bool      // calls declared not terminating
 	nforget  int               // scripted "forget" / foreign-id answers so far
 	live     map[int]*liveCall // calls with a cancellable context (history lock)
+	stalled  bool              // the watchdog expired but the executions returned right after the goroutine dump
 	// hooks for directed scenarios: called with the history lock held, may override the fate
 	onPrepare func(n *nodeState, stmt int, serial int) (pfate, chan struct{})
 	onExec    func(n *nodeState, call int, known bool) (xfate, chan struct{}, bool)
@@ -729,6 +734,26 @@ func (w *world) finish(wg *sync.WaitGroup, outdir string, tag string) (op string
 	case <-done:
 	case <-time.After(watchdog):
 		blocked, dump := blockedInGocql()
+		// second look. A stall of the Go runtime itself (a timer that does not fire, a runnable goroutine that is not
+		// scheduled — seen once in ~10^4 runs with spinning goroutines around) ends when the world is stopped for the
+		// dump; an execution that waits for something nobody will ever do stays where it is. Only the latter counts.
+		recovered := func() (string, string) {
+			w.stalled = true
+			os.WriteFile(fmt.Sprintf("%s/stall-%s.txt", outdir, tag), []byte("recovered after the dump; blocked in gocql at the dump: "+blocked+"\n\n"+dump), 0o644)
+			return w.render(""), ""
+		}
+		select {
+		case <-done:
+			return recovered()
+		case <-time.After(grace):
+		}
+		blocked2, dump2 := blockedInGocql()
+		select {
+		case <-done:
+			return recovered()
+		default:
+		}
+		blocked, dump = blocked2, dump2
 		w.h.mu.Lock()
 		returned := map[int]bool{}
 		for _, e := range w.h.evs {
@@ -753,6 +778,11 @@ func (w *world) finish(wg *sync.WaitGroup, outdir string, tag string) (op string
 		}
 		os.WriteFile(fmt.Sprintf("%s/hang-%s.txt", outdir, tag), []byte("blocked in gocql: "+blocked+"\n\n"+dump), 0o644)
 	}
+	return w.render(hung), hung
+}
+
+// render stops the log and renders the trace op.
+func (w *world) render(hung string) string {
 	w.h.mu.Lock()
 	w.h.stopped = true
 	evs := w.h.evs
@@ -800,7 +830,7 @@ func (w *world) finish(wg *sync.WaitGroup, outdir string, tag string) (op string
 	if w.capacity == 0 || w.capacity >= 1000 {
 		opw = "traceU "
 	}
-	return opw + strings.Join(words, " "), hung
+	return opw + strings.Join(words, " ")
 }
 
 // ---------- scenarios ----------
@@ -886,6 +916,9 @@ func (rn *runner) emit(w *world, wg *sync.WaitGroup, class string) bool {
 	rn.out.Dist["conc-events/prepare-failed"] += strings.Count(op, ":err ")
 	rn.out.Dist["conc-events/count-error"] += strings.Count(op, ":ce")
 	rn.out.Dist["conc-events/prepare-error-returned"] += strings.Count(op, ":pe/")
+	if w.stalled {
+		rn.out.Dist["conc/runtime-stall-recovered-after-dump(not-a-hang)"]++
+	}
 	rn.out.Dist["conc-events/K(context-done)"] += strings.Count(op, " K:")
 	rn.out.Dist["conc-events/context-error-returned"] += strings.Count(op, ":ctx")
 	rn.out.Case(fmt.Sprintf("cachelen cap=%d max=%d", w.capacity, atomic.LoadInt32(&w.maxLen)), "accept", "cachelen", true)
@@ -1337,32 +1370,59 @@ func (rn *runner) evictionInFlight() {
 	rn.emit(w, &wg, fmt.Sprintf("eviction-in-flight/cap%d", capn))
 }
 
-// sameStatementBurst: n goroutines execute one uncached statement at the same moment.
+// sameStatementBurst: n goroutines execute one uncached statement at the same moment — for each of the world's
+// statements in turn (every burst meets a cold key) — while two goroutines take the cache mutex a few thousand
+// times (bounded work, no spinning on a flag), so that the callers of a burst meet a contended lock and pass
+// through the lookup-or-insert critical section close to each other.
 func (rn *runner) sameStatementBurst() {
 	r := rn.r
-	c := worldCfg{nhosts: 1 + r.Intn(2), nconns: 1 + r.Intn(2), capacity: 1000, stmts: mkStmts(2, r), stableID: r.Bool()}
+	c := worldCfg{nhosts: 1 + r.Intn(2), nconns: 1 + r.Intn(2), capacity: 1000, stmts: mkStmts(12, r), stableID: r.Bool()}
 	w, err := newWorld(r, c)
 	if err != nil {
 		rn.out.Case("trace Z:no-session", "accept", "conc/no-session", true)
 		return
 	}
 	fails := r.Intn(3) == 0
-	w.nodes[0].pf[0] = []pfate{{fail: fails, delay: time.Duration(r.Intn(3000)) * time.Microsecond}}
-	var wg sync.WaitGroup
-	start := make(chan struct{})
-	for g, ng := 0, 4+r.Intn(12); g < ng; g++ {
-		host := 0
-		if g%5 == 4 {
-			host = c.nhosts - 1
-		}
-		wg.Add(1)
-		go func() {
-			defer wg.Done()
-			<-start
-			w.doCall(&callSpec{host: host, entries: []entrySpec{{stmt: 0, nvals: w.stmts[0].ncols}}})
-		}()
+	for j := range w.stmts {
+		w.nodes[0].pf[j] = []pfate{{fail: fails && j == 0, delay: time.Duration(r.Intn(3000)) * time.Microsecond}}
 	}
-	close(start)
+	var sizes []int
+	for range w.stmts {
+		sizes = append(sizes, 4+r.Intn(12))
+	}
+	var wg sync.WaitGroup
+	wg.Add(1)
+	go func() {
+		defer wg.Done()
+		for j := range w.stmts {
+			var bw sync.WaitGroup
+			start := make(chan struct{})
+			for g := 0; g < sizes[j]; g++ {
+				host := 0
+				if g%5 == 4 {
+					host = c.nhosts - 1
+				}
+				bw.Add(1)
+				go func() {
+					defer bw.Done()
+					<-start
+					w.doCall(&callSpec{host: host, entries: []entrySpec{{stmt: j, nvals: w.stmts[j].ncols}}})
+				}()
+			}
+			for g := 0; g < 2; g++ {
+				bw.Add(1)
+				go func() {
+					defer bw.Done()
+					<-start
+					for i := 0; i < 4000; i++ {
+						gocql.VerifC14bLockTouch(w.sess)
+					}
+				}()
+			}
+			close(start)
+			bw.Wait()
+		}
+	}()
 	rn.emit(w, &wg, fmt.Sprintf("burst/fails=%v", fails))
 }
 
